@@ -152,7 +152,7 @@ func (r *itemRun) try(op int, sub string, f func()) bool {
 	p, msg, site := ev.Try(f)
 	if p {
 		name := opTable[op]
-		r.x.Violation(fmt.Sprintf("panic@%s: %s [%s]", site, ev.MsgClass(msg), name), name, sub+": "+msg)
+		r.x.Violation(fmt.Sprintf("panic@%s: %s [%s]", site, certs.MsgClass(msg), name), name, sub+": "+msg)
 		r.x.A.Outcome("op:"+name+":PANIC", 1)
 		return false
 	}
